@@ -1,5 +1,5 @@
 (* C04_Proofs.v — lemmas and proofs about C04_DN / C04_Model. No axioms. *)
-From NV Require Import Base C04_DN C04_Model.
+From NV Require Import Base C04_DN C04_Model C04_RoundTrip.
 From Coq Require Import Permutation.
 Open Scope string_scope.
 Open Scope list_scope.
@@ -430,3 +430,166 @@ Proof.
   - now destruct (collect_inl _ _ C) as (_ & H).
   - destruct (collect_inr _ _ C) as (_ & H). rewrite (x509_maps_none _ Hn) in H. subst. reflexivity.
 Qed.
+
+(* ====================================================================== *)
+(* 4. order, alias, spacing: the verdict in terms of abstract DNs          *)
+(* ====================================================================== *)
+
+Lemma styled_wf_parts : forall d, styled_wf d = true ->
+  dn_wf (map snd d) = true /\ forallb style_wf d = true /\ nodup_keys (map snd d) = true /\ d <> [].
+Proof.
+  intros d H. unfold styled_wf in H. apply andb_true_iff in H. destruct H as [H1 H2].
+  repeat split; try assumption.
+  - unfold dn_wf in H1. apply andb_true_iff in H1. destruct H1 as [H1 _].
+    apply andb_true_iff in H1. now destruct H1.
+  - intros ->. discriminate H1.
+Qed.
+
+(* C04_order_alias_space, part 1: every rendering is read back *)
+Theorem roundtrip : forall d, styled_wf d = true ->
+  exists m, parse_distinguished_name (render d) = DOk m /\ same_attrs m (map snd d).
+Proof.
+  intros d H. destruct (styled_wf_parts d H) as (H1 & H2 & H3 & _).
+  exists (rev (map snd d)). split; [now apply parse_render|].
+  intros k. symmetry. apply lookup_perm; [apply Permutation_rev|assumption].
+Qed.
+
+Lemma render_nonempty : forall d, d <> [] -> String.eqb (render d) "" = false.
+Proof.
+  intros d H. unfold render. pose proof (eq_in_render d H) as Hin.
+  destruct (render_bytes d); [destruct Hin|reflexivity].
+Qed.
+
+Lemma id_of_facts : forall d,
+  String.eqb wildcard (id_of d) = false /\ cut_byte colon (id_of d) = Some (x509_subject, render d).
+Proof. intros d. split; reflexivity. Qed.
+
+Lemma collect_id_of : forall ds, Forall (fun d => styled_wf d = true) ds ->
+  collect_ids (map id_of ds) = inr (map (fun d => rev (map snd d)) ds).
+Proof.
+  induction ds as [|d ds IH]; intros H; [reflexivity|]. inversion H as [|? ? Hd Hds]. subst.
+  destruct (styled_wf_parts d Hd) as (H1 & H2 & _ & H4).
+  cbn [map collect_ids]. destruct (id_of_facts d) as [_ ->]. rewrite String.eqb_refl.
+  rewrite render_nonempty, parse_render, IH by assumption. reflexivity.
+Qed.
+
+Lemma mem_wildcard_id_of : forall ds, mem_str wildcard (map id_of ds) = false.
+Proof. induction ds as [|d ds IH]; [reflexivity|]. cbn [map mem_str existsb]. fold (mem_str wildcard (map id_of ds)). now rewrite IH. Qed.
+
+Lemma existsb_map : forall {A B} (f : B -> bool) (g : A -> B) l, existsb f (map g l) = existsb (fun a => f (g a)) l.
+Proof. intros A B f g l. induction l as [|a l IH]; cbn; [reflexivity|]. now rewrite IH. Qed.
+
+Lemma subset_decl_rev : forall a b, subset_decl (rev a) (rev b) = subset_decl a b.
+Proof.
+  intros a b. apply bool_eq_iff. rewrite !subset_decl_In. split; intros H k v Hin.
+  - apply in_rev. apply H. now apply in_rev in Hin.
+  - apply in_rev in Hin. apply in_rev. rewrite rev_involutive. now apply H.
+Qed.
+
+Lemma nodup_keys_rev1 : forall (m : amap), nodup_keys m = true -> nodup_keys (rev m) = true.
+Proof. intros m H. eapply nodup_keys_perm; [apply Permutation_rev|assumption]. Qed.
+
+(* the verdict on rendered identities and a rendered leaf subject, whatever the styles *)
+Theorem abstract_verdict : forall ds l rest,
+  Forall (fun d => styled_wf d = true) ds -> styled_wf l = true ->
+  verify_identities (map id_of ds) (render l :: rest) =
+  match ds with
+  | [] => VNoX509
+  | _ :: _ => if existsb (fun d => subset_decl (map snd d) (map snd l)) ds then VPass else VNoMatch
+  end.
+Proof.
+  intros ds l rest Hds Hl. unfold verify_identities.
+  rewrite mem_wildcard_id_of, collect_id_of by assumption.
+  destruct (styled_wf_parts l Hl) as (L1 & L2 & L3 & _).
+  destruct ds as [|d0 ds']; [reflexivity|].
+  set (ds := d0 :: ds') in *. change (map (fun d => rev (map snd d)) ds) with (map (fun d => rev (map snd d)) (d0 :: ds')).
+  cbn [map]. change (rev (map snd d0) :: map (fun d => rev (map snd d)) ds') with (map (fun d => rev (map snd d)) ds).
+  rewrite parse_render by assumption. rewrite existsb_map.
+  assert (E : existsb (fun d => is_subset_dn (rev (map snd d)) (rev (map snd l))) ds
+              = existsb (fun d => subset_decl (map snd d) (map snd l)) ds).
+  { apply existsb_ext_in'. intros d Hin. rewrite Forall_forall in Hds.
+    destruct (styled_wf_parts d (Hds d Hin)) as (_ & _ & D3 & _).
+    rewrite <- subset_decl_is_subset by (apply nodup_keys_rev1; assumption). apply subset_decl_rev. }
+  exact (f_equal (fun b : bool => if b then VPass else VNoMatch) E).
+Qed.
+
+Lemma subset_decl_perm : forall a a' b b', Permutation a a' -> Permutation b b' ->
+  subset_decl a b = subset_decl a' b'.
+Proof.
+  intros a a' b b' Pa Pb. apply bool_eq_iff. rewrite !subset_decl_In. split; intros H k v Hin.
+  - eapply Permutation_in; [exact Pb|]. apply H. eapply Permutation_in; [apply Permutation_sym; exact Pa|assumption].
+  - eapply Permutation_in; [apply Permutation_sym; exact Pb|]. apply H. eapply Permutation_in; [exact Pa|assumption].
+Qed.
+
+Definition same_dn (a b : list (astyle * attr)) : Prop := Permutation (map snd a) (map snd b).
+
+(* C04_order_alias_space, part 2: the verdict does not depend on attribute
+   order, spacing, separators, escaping or the S/ST alias, neither in the
+   identities nor in the leaf subject *)
+Theorem verdict_invariant : forall ds1 ds2 l1 l2 rest1 rest2,
+  Forall (fun d => styled_wf d = true) ds1 -> Forall (fun d => styled_wf d = true) ds2 ->
+  styled_wf l1 = true -> styled_wf l2 = true ->
+  Forall2 same_dn ds1 ds2 -> same_dn l1 l2 ->
+  verify_identities (map id_of ds1) (render l1 :: rest1) = verify_identities (map id_of ds2) (render l2 :: rest2).
+Proof.
+  intros ds1 ds2 l1 l2 rest1 rest2 H1 H2 L1 L2 F P.
+  rewrite !abstract_verdict by assumption.
+  assert (E : existsb (fun d => subset_decl (map snd d) (map snd l1)) ds1
+              = existsb (fun d => subset_decl (map snd d) (map snd l2)) ds2).
+  { clear H1 H2. induction F as [|d1 d2 ds1 ds2 Hd F IH]; [reflexivity|]. cbn [existsb].
+    rewrite IH. f_equal. now apply subset_decl_perm. }
+  destruct F; [reflexivity|]. now rewrite E.
+Qed.
+
+(* ====================================================================== *)
+(* 5. the model meets the oracle                                           *)
+(* ====================================================================== *)
+
+Lemma amap_sub_In : forall a b, nodup_keys b = true -> (forall kv, In kv a -> In kv b) -> amap_sub a b = true.
+Proof.
+  intros a b Hb H. unfold amap_sub. apply forallb_forall. intros [k v] Hin. cbn.
+  rewrite (nodup_lookup b k v Hb (H _ Hin)). apply String.eqb_refl.
+Qed.
+
+Lemma amap_eqb_rev : forall m, nodup_keys m = true -> amap_eqb (rev m) m = true.
+Proof.
+  intros m H. unfold amap_eqb. rewrite rev_length, Nat.eqb_refl. cbn [andb].
+  rewrite !amap_sub_In; auto.
+  - now apply nodup_keys_rev1.
+  - intros kv Hin. now apply in_rev in Hin.
+  - intros kv Hin. now apply in_rev.
+Qed.
+
+Lemma verify_obs_ok : forall late log ids chain, negb (is_nil chain) = true ->
+  spec_ok (IVerify late log ids chain) (verify_obs log ids chain) = true.
+Proof.
+  intros late log ids chain Hc. unfold verify_obs. cbn [spec_ok]. rewrite Bool.eqb_reflx, andb_true_r.
+  unfold verify_ok. destruct (list_eqb String.eqb ids [wildcard]) eqn:E.
+  - apply list_eqb_spec in E; [|apply String.eqb_eq]. subst. reflexivity.
+  - destruct (mem_str wildcard ids) eqn:W; [reflexivity|].
+    destruct chain as [|leaf rest]; [discriminate|].
+    rewrite verify_pass_bool by assumption. apply Bool.eqb_reflx.
+Qed.
+
+Theorem model_spec_ok : forall i, wf i = true -> spec_ok i (model i) = true.
+Proof.
+  intros [s|a b|d s|late log ids chain] Hwf; cbn [model].
+  - cbn [spec_ok]. apply parse_ok_model.
+  - cbn [spec_ok wf] in *. apply andb_true_iff in Hwf. destruct Hwf as [Ha Hb].
+    rewrite subset_decl_is_subset by assumption. apply Bool.eqb_reflx.
+  - cbn [spec_ok]. rewrite parse_ok_model. cbn [andb]. unfold render_pre.
+    destruct (dn_wf (map snd d)) eqn:D; [|reflexivity].
+    destruct (forallb style_wf d) eqn:S; [|reflexivity].
+    destruct (String.eqb (render d) s) eqn:R; [|reflexivity]. cbn [andb].
+    apply String.eqb_eq in R. subst s. rewrite parse_render by assumption.
+    apply amap_eqb_rev. unfold dn_wf in D. apply andb_true_iff in D. destruct D as [D _].
+    apply andb_true_iff in D. now destruct D.
+  - cbn [wf] in Hwf. destruct late.
+    + now apply verify_obs_ok.
+    + destruct (validate_ids ids) eqn:V; try reflexivity. now apply verify_obs_ok.
+Qed.
+
+(* strict level: the signature is rejected exactly when the identity check fails *)
+Theorem strict_rejects : forall ids chain v rej,
+  model (IVerify true false ids chain) = OVerify v rej -> rej = negb (is_pass v).
+Proof. intros ids chain v rej H. cbn in H. unfold verify_obs in H. inversion H. reflexivity. Qed.
